@@ -467,6 +467,15 @@ impl BudgetEnforcer {
         }
     }
 
+    /// The alias just observed is going to be replayed: its node will be fed through `observe`
+    /// again and takes the key / value slot then, so the slot the alias event took is given
+    /// back. (Without replay - `check_yaml_budget` - the alias event itself fills the slot.)
+    pub(crate) fn alias_will_be_replayed(&mut self) {
+        if let Some(ContainerState::Mapping { expecting_key, .. }) = self.containers.last_mut() {
+            *expecting_key = !*expecting_key;
+        }
+    }
+
     fn entering_container(&mut self) -> bool {
         if let Some(ContainerState::Mapping { expecting_key, .. }) = self.containers.last_mut() {
             if *expecting_key {
